@@ -1,19 +1,20 @@
 (* L0 oracle for C20 (memoize): the acceptor of Spec/Memo.v on the harness'
    concrete alphabet.  Depends on nothing generated.
-   argument classes A = nat:  a = base + 100 * t, where t = number of callables
-   (thunks) that replace leading arguments of the base form;
+   argument classes A = nat:  a = base + 1000 * t, where t = number of callables
+   (thunks) that replace values of the base form (leading arguments, or values
+   further down inside list / tuple / dict / keyword arguments);
    keys K = Z: the key of class a is Z.of_nat a, explicit keys are negative;
    values V = Z: the id of the value the unwrapped body returns, f a = base;
    folders F = Z;  sizes are supplied per value id by the harness
    (sys.getsizeof(pickle.dumps(value))). *)
 From Coq Require Import ZArith List Bool String.
-From DM Require Export Base.PyVal Spec.Memo Spec.MemoKey.
+From DM Require Export Base.PyVal Spec.Memo Spec.MemoKey Spec.MemoLazy.
 Import ListNotations.
 Open Scope Z_scope.
 
-Definition cf (a : nat) : Z := Z.of_nat (Nat.modulo a 100).
+Definition cf (a : nat) : Z := Z.of_nat (Nat.modulo a 1000).
 Definition ckey (a : nat) : Z := Z.of_nat a.
-Definition cthunks (a : nat) : nat := Nat.div a 100.
+Definition cthunks (a : nat) : nat := Nat.div a 1000.
 Fixpoint csize (tab : list (Z * Z)) (v : Z) : Z :=
   match tab with [] => 0 | (v', s) :: r => if Z.eqb v v' then s else csize r v end.
 
@@ -38,3 +39,9 @@ Definition key_pair_ok (c c' : call) (same_key : bool) : bool :=
 Definition key_matrix_ok (forms : list (call * Z)) : bool :=
   forallb (fun x => call_wfb (fst x)
                     && forallb (fun y => Bool.eqb (call_eqvb (fst x) (fst y)) (Z.eqb (snd x) (snd y))) forms) forms.
+
+(* ---- lazy mode: one observed execution of the body (Spec/MemoLazy.lazy_observed_ok): every callable of the argument
+   list -- at any depth -- was evaluated once, the body received no callable, and what it received is the argument list
+   with every callable replaced by its value (a tuple and a list of equal content are the same argument) ---- *)
+Definition lazy_ok (tab : list (string * arg)) (c received : call) (forced : nat) : bool :=
+  lazy_observed_ok tab c received forced.
